@@ -177,6 +177,27 @@ def run_case(case, workdir):
         if len(digests) > 1:
             rec.fail("schedule_dependent", {"gradp": gp, "reactions": rx, "flooring": fl}, "%d distinct output trees" % len(digests))
         rec.outcome(h64([dh, gp, rx, fl, sorted(digests)]))
+    # the command line entry point must write what the API writes (its three switches DISABLE gradp / ENABLE reactions / DISABLE flooring)
+    import amr_kitchen.chk2plt.cli as ccli
+    from ..common import run_cli
+    from ..refmodel import tree_digest as _td
+    for gp, rx, fl in case["opts"][:2]:
+        o1, o2 = os.path.join(workdir, "cli_plt"), os.path.join(workdir, "api_plt")
+        if ref_plt is not None:
+            src_args, api_kw = ["-p", ref_plt], {"target_plotfile": ref_plt, "species": None}
+        else:
+            src_args, api_kw = ["-s"] + [str(i + 1) for i in range(ns)], {"target_plotfile": None, "species": [i + 1 for i in range(ns)]}
+        argv = ["chk2plt", "-c", chk, "-o", o1] + src_args + ([] if gp else ["-ip"]) + (["-ir"] if rx else []) + ([] if fl else ["-f"])
+        with vpool.controlled():
+            st, val = run_cli(ccli.main, argv)
+            st2, val2 = call(lambda: chk2plt(chk, gradp=gp, species_reactions=rx, floor_massfracs=fl, pltdir=o2, **api_kw))
+        rec.exe([dh, "cli", gp, rx, fl], nontrivial=True)
+        if st != "ok":
+            rec.fail("cli_failed", {"argv": argv}, "%s %s" % (st, val))
+        elif st2 == "ok" and _td(o1) != _td(o2):
+            rec.fail("cli_differs_from_api", {"argv": argv}, "the chk2plt command wrote another tree than chk2plt(...)")
+        shutil.rmtree(o1, ignore_errors=True)
+        shutil.rmtree(o2, ignore_errors=True)
     if audit.snapshot(chk) != before:
         rec.fail("checkpoint_modified", {}, "")
     rec.sample({"desc": desc, "species_source": case["source"], "options": case["opts"][:2]})
